@@ -15,3 +15,5 @@ func TestC12(t *testing.T) { runProp(t, "C12", drawC12) }
 func TestC01(t *testing.T) { runProp(t, "C01", drawC01) }
 
 func TestC11(t *testing.T) { runProp(t, "C11", drawC11) }
+
+func TestC02(t *testing.T) { runProp(t, "C02", drawC02) }
